@@ -1,5 +1,6 @@
 import SemantivaModel.Driver.C11
 import SemantivaModel.Driver.C12
+import SemantivaModel.Driver.C13
 /-!
 `modeldriver`: one JSON object per line in, one per line out.
 `{"m": "<model>.<op>", "id": <any>, ...}` → `{"id": <same>, "ok": ...}` or `{"id":…, "err": "..."}`.
@@ -9,6 +10,7 @@ open Lean SemantivaModel.Driver
 structure DState where
   c11 : C11.State := {}
   c12 : C12.State := {}
+  c13 : C13.State := {}
 
 def dispatch (st : DState) (j : Json) : Except String (DState × Json) := do
   let m ← strField j "m"
@@ -18,6 +20,9 @@ def dispatch (st : DState) (j : Json) : Except String (DState × Json) := do
   else if m.startsWith "c12." then
     let (s, r) ← C12.handle st.c12 m j
     pure ({ st with c12 := s }, r)
+  else if m.startsWith "c13." then
+    let (s, r) ← C13.handle st.c13 m j
+    pure ({ st with c13 := s }, r)
   else throw s!"unknown model op {m}"
 
 partial def loop (h : IO.FS.Stream) (out : IO.FS.Stream) (st : DState) : IO Unit := do
